@@ -4,7 +4,7 @@ from .. import env, coq, runner
 
 LEVEL = 'proof'
 META = dict(
-    text='Coq theorems over a hand-written Gallina model of Circuit/Moment in the shape of circuit.py (operations as records of uid, qubits, measurement keys, control keys, parameter names; moments as lists; the placement cache and the five lazy summaries as explicit state; 37 public call forms): for every finite history the moments keep pairwise-disjoint qubits, the placement cache, whenever present, equals the summary recomputed from the moments, every lazily cached summary that is marked valid equals its recomputation, and no insert/append raises; insert with any strategy/index/operation tree loses or duplicates nothing and keeps the existing operations in order; for one operation (every strategy) and for append/constructor with any tree each operation lands behind every conflicting one and never across one; the cached append builds exactly the moments of the uncached insert at the end, and after any history insert/append (every strategy, index, tree) build the moments the same call builds on a freshly rebuilt equal circuit; the index insert returns (every strategy, index, tree, cached or not) is not in front of the insertion point and the moments from it on are an untouched tail of the moments that stood at or behind the insertion point, so every inserted operation lies in front of it; batch_* edits are atomic; closed forms for NEW/INLINE placement and specifications of the two scans. The model is evaluated by vm_compute on the same edit histories the implementation ran (random histories, plus a fixed grid: a circuit whose append-placement cache is alive, one edit of every kind aimed at / behind the last operation on each qubit and key, then appends onto every qubit and key; and a second fixed grid: trees of every conflict shape inserted at every index of small circuits with each strategy, followed by an insert at the returned index; moments as uid lists, return values, exception classes, queries compared after every call), and spec-level oracles (disjointness, multiset, documented exceptions, atomicity, the order clauses of the property text, placement per strategy for one operation and for whole trees at the end, the documented meaning of the index insert / insert_into_range return (every inserted operation in front of it; follow-up inserts at it with all five strategies land after every conflicting operation of the first call; chained inserts keep call order), every edit and every query compared with a freshly rebuilt equal circuit) run on the real code.',
+    text='Coq theorems over a hand-written Gallina model of Circuit/Moment in the shape of circuit.py (operations as records of uid, qubits, measurement keys, control keys, parameter names; moments as lists; the placement cache and the five lazy summaries as explicit state; 37 public call forms): for every finite history the moments keep pairwise-disjoint qubits, the placement cache, whenever present, equals the summary recomputed from the moments, every lazily cached summary that is marked valid equals its recomputation, and no insert/append raises; insert with any strategy/index/operation tree loses or duplicates nothing and keeps the existing operations in order; for one operation (every strategy) and for append/constructor with any tree each operation lands behind every conflicting one and never across one; the cached append builds exactly the moments of the uncached insert at the end, and after any history insert/append (every strategy, index, tree) build the moments the same call builds on a freshly rebuilt equal circuit; the index insert returns (every strategy, index, tree, cached or not) is not in front of the insertion point and the moments from it on are an untouched tail of the moments that stood at or behind the insertion point, so every inserted operation lies in front of it; insert_into_range (one forward-moving cursor) leaves the operations it writes into the range in the order given, as a subsequence of all_operations(), for every occupancy of the range; batch_* edits are atomic; closed forms for NEW/INLINE placement and specifications of the two scans. The model is evaluated by vm_compute on the same edit histories the implementation ran (random histories, plus a fixed grid: a circuit whose append-placement cache is alive, one edit of every kind aimed at / behind the last operation on each qubit and key, then appends onto every qubit and key; and a second fixed grid: trees of every conflict shape inserted at every index of small circuits with each strategy, followed by an insert at the returned index; and a third fixed grid: all 64 three-moment circuits whose moments hold nothing / an operation on a / on b / on both, every range [s, e) and frontier start, and trees whose consecutive operations are tied through one qubit and differ on another, written by insert_into_range / insert_at_frontier; moments as uid lists, return values, exception classes, queries compared after every call), and spec-level oracles (disjointness, multiset, documented exceptions, atomicity, the order clauses of the property text, placement per strategy for one operation and for whole trees at the end, the documented meaning of the index insert / insert_into_range return (every inserted operation in front of it; follow-up inserts at it with all five strategies land after every conflicting operation of the first call; chained inserts keep call order), every edit and every query compared with a freshly rebuilt equal circuit) run on the real code.',
     note='Trusted: Coq kernel; the Python adapters in vf/checks/c05.py (op vocabulary carrying uids, calling Cirq, printing Gallina literals, the spec-level oracles = the reading of the property text). The quantifier over histories is proved for the model and only sampled for the model-implementation correspondence. Proved for the model but only compared on samples for multi-operation mid-circuit inserts: the order clauses; for zip/concat_ragged/insert_at_frontier/batch_replace: conservation of operations. _load_contents_with_earliest_strategy is modelled as sequential cached placement. Not covered: diagrams/__str__, JSON, extended slices (step != 1), deprecated helpers. known_findings/C05.json: two defects found by this check were repaired (with_tags kept a stale placement cache; batch_insert mis-shifted later indices) and are guarded by the positive theorems and the oracles; open: concat_ragged and insert_at_frontier ignore key conflicts (kept as refuted theorems whose witnesses are replayed on every run), and two residual batch_insert edge cases (negative indices; shift after a multi-operation group that spills past the next index).',
     technique='Rocq/Coq proof (induction over call lists, invariants of the insertion loops) over an executable Gallina model + vm_compute correspondence on random edit histories + spec-level oracles on the implementation',
 )
@@ -1323,7 +1323,8 @@ def run(ctx):
                 '+, *, **-1, zip, concat_ragged, transform_qubits, freeze/unfreeze, with_tags, queries interleaved; plus the edit-then-append grid '
                 '(circuits built by Circuit(tree)/appends in three ways, one aimed edit of every kind on/behind the last operation of each qubit and key, '
                 'then single-operation and whole-tree appends onto all qubits and keys); plus the insert-then-insert grid (18 tree shapes x every index x 5 strategies on a '
-                'key-free base, a base with keys and rng-drawn bases, each followed by an insert at the returned index); after every call the '
+                'key-free base, a base with keys and rng-drawn bases, each followed by an insert at the returned index); plus the write-into-range grid (every 3-moment occupancy pattern over two qubits '
+                'x ranges / frontier starts x trees tied through shared qubits in every order, a base with keys, rng-drawn bases and trees, half followed by an insert at the returned index); after every call the '
                 'moments (uid lists), return value / exception class are compared with the Gallina model; non-trivial = >= 3 mutating '
                 'calls, >= 3 operations left and a moment with >= 2 operations; distinct by canonical history')
     ctx.assumptions += ['vf/checks/c05.py adapters: op vocabulary (uid-carrying gates/operations), canonicalisation of results, Gallina literal printing',
@@ -1336,6 +1337,7 @@ def run(ctx):
     retindex_stream(ctx, cirq, vocab)
     n = 500 if ctx.tier == 'quick' else 6000
     history_stream(ctx, cirq, vocab, n)
+    range_stream(ctx, cirq, vocab)
 
 
 # histories the Coq development uses as witnesses of refuted statements: replayed on the implementation
@@ -1445,8 +1447,10 @@ def moment_stream(ctx, cirq, vocab, n):
         ctx.mark_broken('correspondence:moment', f'model and implementation differ on the Moment chain {calls}: implementation gave {trace}')
 
 
-def account(ctx, stream, w, calls, trace, problems, cirq, vocab):
-    """Counts one executed history and reports what the spec-level oracles found on it."""
+def account(ctx, stream, w, calls, trace, problems, cirq, vocab, cap=None):
+    """Counts one executed history and reports what the spec-level oracles found on it.  `cap` (a Counter shared by the
+    histories of one grid, with cap['max'] set) stops minimising after that many failing histories per oracle kind: a grid
+    hits one defect hundreds of times."""
     ctx.count(stream, history_doc(w, calls), nontrivial(w, calls, trace),
               sample=dict(calls=calls[:4], final_moments=trace[-1][1]))
     for c, (r, _) in zip(calls, trace):
@@ -1462,6 +1466,10 @@ def account(ctx, stream, w, calls, trace, problems, cirq, vocab):
         if kind in seen:
             continue
         seen.add(kind)
+        if cap is not None:
+            if cap[kind] >= cap['max']:
+                continue
+            cap[kind] += 1
         report_problem(ctx, cirq, vocab, w, calls, step, kind, what)
 
 
@@ -1718,7 +1726,160 @@ def retindex_stream(ctx, cirq, vocab):
     compare_with_model(ctx, cirq, vocab, hists, 'retidx', 300)
 
 
-def compare_with_model(ctx, cirq, vocab, hists, name, shard):
+# ---- inline writes into a range of partly occupied moments: every occupancy pattern x every range x trees tied through shared qubits --------
+# insert_into_range (and insert_at_frontier) write a SEQUENCE of operations into moments that already hold operations: where
+# an operation lands depends on which moments of the range are blocked for it, and operations of the tree that share a qubit
+# must still come out in the order given.  Whether they do depends on the conjunction "an early moment of the range is
+# blocked for an earlier operation of the tree but free for a later one that is tied to it through another qubit", which
+# random histories on 5 qubits almost never produce.  The grid enumerates it: every circuit of three moments whose moments
+# hold nothing / an operation on a / on b / on both (64 circuits; the third qubit f is always free), every range [s, e) (every
+# frontier start), and trees in which consecutive operations are tied through one qubit while differing on another, in
+# every order (two-qubit operation first / last / in the middle, chains a-b, b-f, f), plus the conflict shapes of the
+# insert-then-insert grid (keys, Moments in the tree, empty tree), plus a base with keys whose placement cache is alive and
+# rng-drawn bases with rng-drawn trees.  Half of the histories go on with an insert at the returned index.  All steps are
+# compared with the model and judged by every oracle (the order clauses among the inserted operations and against the
+# operations in front of / behind the range, multiset, returned index, rebuilt circuit).
+def fresh_tree(ops2, shape):
+    """New operations (next free uids in ops2) of the given shapes; ('m', [specs]) is a Moment."""
+    nxt = max(ops2, default=0) + 1
+    tree = []
+    for it in shape:
+        sps = it[1] if isinstance(it, tuple) else [it]
+        us = []
+        for sp in sps:
+            ops2[nxt] = dict(sp)
+            us.append(nxt)
+            nxt += 1
+        tree.append({'m': us} if isinstance(it, tuple) else us[0])
+    return tree
+
+
+def tied_shapes(a, b, f):
+    """Trees whose consecutive operations share one qubit and differ on another (each list: operations in the order given)."""
+    return [
+        [U1([a, b]), U1([b])], [U1([a]), U1([a, b])], [U1([a, b]), U1([b]), U1([a])], [U1([a]), U1([b]), U1([a, b])],
+        [U1([a]), U1([a, b]), U1([b])], [U1([a, b]), U1([b, f]), U1([f])],
+        [U1([a]), U1([a])], [U1([a]), U1([b]), U1([a]), U1([b])], [U1([a, b]), U1([a, b])], [U1([a, f]), U1([f]), U1([b, f]), U1([b])],
+    ]
+
+
+def occupancy_bases(a, b, L=3):
+    """Every circuit of L moments in which a moment holds nothing, an operation on a, one on b, or both (as two
+    operations or as one two-qubit operation, alternating).  Yields (ops, build calls)."""
+    for p in range(4 ** L):
+        ops, moms, uid = {}, [], 1
+        for j in range(L):
+            d = (p // 4 ** j) % 4
+            if d == 3 and (p // 5 + j) % 2:
+                sps = [U1([a, b])]
+            else:
+                sps = [U1([q]) for q, bit in ((a, 1), (b, 2)) if d & bit]
+            m = []
+            for sp in sps:
+                ops[uid] = sp
+                m.append(uid)
+                uid += 1
+            moms.append(m)
+        yield ops, [dict(c='new', items=[{'m': m} for m in moms], s='EARLIEST')]
+
+
+def range_histories(cirq, vocab, rng, tier):
+    """Yields (ops, calls): build ; insert_into_range(tree, s, e) or insert_at_frontier(tree, start) [; insert(<returned index>, ...)]."""
+    quick = tier == 'quick'
+    a, b, f = 0, 1, 2
+    tied = tied_shapes(a, b, f)
+    allshapes = tied + [sh for sh in tree_shapes(a, b, f, 0, 1) if sh not in tied]
+    count = 0
+
+    def emit(ops, build, shape, edit):
+        """edit: ('range', s, e) or ('frontier', start); shape: specs, or None for a tree drawn by the generator."""
+        nonlocal count
+        ops2 = dict(ops)
+        if shape is None:
+            w0 = World(cirq, vocab, ops2)
+            g0 = Gen(rng, w0)
+            g0.next_uid = max(ops2, default=0) + 1
+            tree = g0.items(1, 4, moments=rng.random() < 0.2 and edit[0] == 'range')
+            ops2 = dict(w0.ops)
+        else:
+            tree = fresh_tree(ops2, shape)
+        if edit[0] == 'range':
+            first = dict(c='range', items=tree, s=edit[1], e=edit[2])
+        else:
+            first = dict(c='frontier', items=tree, start=edit[1], f=None)
+        calls = build + [first]
+        if edit[0] == 'range' and count % 2 == 0:      # go on at the index the implementation returned
+            w1 = World(cirq, vocab, ops2)
+            for c in calls[:-1]:
+                exec_call(w1, c)
+            r1 = exec_call(w1, first)
+            if r1[0] == 'int':
+                second = fresh_tree(ops2, shape if (shape and count % 4 == 0) else [U1([a]), U1([b])])
+                calls = calls + [dict(c='insert', i=r1[1], items=second, s=STRATS[(count // 2) % 5], chained=True)]
+        count += 1
+        return ops2, calls
+
+    L = 3
+    ranges = [(s, e) for s in range(L + 1) for e in range(s, L + 1)]
+    wide = [(0, 3), (0, 2), (1, 3)]
+    for bi, (ops, build) in enumerate(occupancy_bases(a, b, L)):
+        for si, shape in enumerate(allshapes if not quick else tied[:6]):
+            if quick:
+                # the whole circuit as the range; for every other (circuit, tree) one more range, rotating through all of them;
+                # for every fourth a frontier start
+                todo = [('range', 0, L)]
+                if (bi + si) % 2 == 0:
+                    todo.append(('range',) + [r for r in ranges if r != (0, L)][(bi * 7 + si) // 2 % (len(ranges) - 1)])
+                if (bi + si) % 4 == 1:
+                    todo.append(('frontier', (bi + si) // 4 % (L + 1)))
+            else:
+                todo = [('range',) + r for r in (ranges if si < len(tied) else wide)] + [('frontier', st) for st in (range(L + 1) if si < len(tied) else (0, 2))]
+            for edit in todo:
+                if edit[0] == 'frontier' and any(isinstance(it, tuple) for it in shape):
+                    continue          # insert_at_frontier is documented for operations
+                yield emit(ops, build, shape, edit)
+    # keys and controls, every qubit busy, built by the EARLIEST constructor (placement cache alive): [[1, 3, 4], [2, 5, 9, 10], [6, 8], [7, 11]]
+    kb = [dict(c='new', items=list(range(1, 12)), s='EARLIEST')]
+    kshapes = tied_shapes(0, 2, NQ + 1)[:6] + tree_shapes(0, 2, NQ + 1, 0, 1)
+    for si, shape in enumerate(kshapes):
+        rs = [(s, e) for s in range(5) for e in range(s, 5)]
+        for r in (rs if not quick else [(0, 4), rs[si % len(rs)]][:1 + si % 2]):
+            yield emit(dict(FIXED_BASE), kb, shape, ('range',) + r)
+    # rng-drawn circuits (Moments, or a tree placed by the EARLIEST constructor) with rng-drawn trees and the tied ones
+    for _ in range(2 if quick else 30):
+        w0 = World(cirq, vocab)
+        g0 = Gen(rng, w0)
+        if rng.random() < 0.5:
+            build = [dict(c='new', items=[{'m': m} for m in g0.circuit(4)], s='EARLIEST')]
+        else:
+            build = [dict(c='new', items=g0.items(3, 8), s='EARLIEST')]
+        for c in build:
+            exec_call(w0, c)
+        n = len(w0.c)
+        qa, qb, qf = rng.sample(range(NQ), 3)
+        shapes = [None] * 6 + tied_shapes(qa, qb, qf)[:6]
+        for shape in shapes:
+            s = rng.randint(0, n)
+            e = n if rng.random() < 0.5 else rng.randint(s, n)
+            yield emit(dict(w0.ops), build, shape, ('range', s, e))
+
+
+def range_stream(ctx, cirq, vocab):
+    import random
+    hists = []
+    cap = collections.Counter(max=4)
+    for ops, calls in range_histories(cirq, vocab, ctx.rng, ctx.tier):
+        w = World(cirq, vocab, ops)
+        calls, trace, problems = run_history(w, calls, random.Random(0))
+        hists.append((w, calls, trace))
+        account(ctx, 'write-into-range', w, calls, trace, problems, cirq, vocab, cap=cap)
+    compare_with_model(ctx, cirq, vocab, hists, 'range', 500, max_search=6)
+
+
+def compare_with_model(ctx, cirq, vocab, hists, name, shard, max_search=None):
+    """max_search: after that many disagreeing histories the spec-level search is not repeated (the oracles have already
+    judged every history of the stream when it ran; the search only minimises what they found on the disagreeing ones)."""
+    searched = 0
     for s in range(0, len(hists), shard):
         part = hists[s:s + shard]
         text = ('From Coq Require Import ZArith List Bool.\nFrom VF Require Import Circ.Moments Circ.Placement Circ.Insert '
@@ -1739,7 +1900,9 @@ def compare_with_model(ctx, cirq, vocab, hists, name, shard):
             ctx.mark_broken('correspondence:history',
                             f'model and implementation differ at step {si} ({calls[si]}) of {name} history {s + hi}: implementation gave {trace[si]}; '
                             f'history: {json.dumps(history_doc(w, calls[:si + 1]))[:30000]}')
-            spec_search(ctx, cirq, vocab, w, calls, si)
+            searched += 1
+            if max_search is None or searched <= max_search:
+                spec_search(ctx, cirq, vocab, w, calls, si)
 
 
 def report_problem(ctx, cirq, vocab, w, calls, step, kind, what):
